@@ -51,7 +51,7 @@ ERR_RE = re.compile(rb'\((Fatal )?Error\)')
 def main():
     ctx = Ctx('C07', 'exploration', variants=('plain', 'asan'))
     b = ctx.b; rng = ctx.rng
-    N = int(os.environ.get("C07_N", 0)) or ctx.q(30000, 400000)
+    N = int(os.environ.get("C07_N", 0)) or ctx.q(20000, 400000)
     # The main input sequence is a fixed function of a committed generator seed (quick is a prefix of thorough), so that
     # the set of fault sites it can reach on the unchanged tree is finite and listed; VERIF_SEED drives an extra slice
     # of input classes that are clean on the unchanged tree.
@@ -119,7 +119,7 @@ def main():
                 nmem += 1; continue      # the sanitizer's own memory cap: no verdict from this build
             sig = san_signature(p)
             if sig:
-                if 'stack-overflow' in sig[0]: sig = (sig[0], kind + ':' + desc if kind == 'stress' else sig[1])
+                if 'stack-overflow' in sig[0]: sig = (sig[0], kind + ':' + desc if kind == 'stress' else kind)      # the innermost frame of an exhausted stack is arbitrary: key by input
                 ctx.violation('%s:%s:%s' % (v, sig[0], sig[1]), '%s on %s (%s)' % (sig, kind, desc), files); continue
             if ft:
                 site = fault_site(b, p, v)
